@@ -736,6 +736,8 @@ class Domain:
     def store_subscript(self, o, idx, v):
         if isinstance(o, Arr):
             return self.lib_call("arr:setitem", [o, idx, v], {})
+        if isinstance(o, DequeV):
+            return self.lib_call("deque:setitem", [o, idx, v], {})
         if isinstance(o, dict):
             o[idx] = v
             return
